@@ -61,6 +61,10 @@ type StreamSpec struct {
 	Tail   int    `json:"tail"`             // bytes available beyond the required ones (prf/biased/literal)
 	TailSd uint64 `json:"tail_seed,omitempty"`
 	Bias   int    `json:"bias,omitempty"` // biased: probability of a one bit, in 1/256
+	// EOFData: a finite stream hands out its last bytes together with io.EOF
+	// (what iotest.DataErrReader, some files, pipes and decompressors do)
+	// instead of returning (0, io.EOF) on the following Read
+	EOFData bool `json:"eof_with_data,omitempty"`
 }
 
 // ChunkSpec describes how many bytes each Read returns.
@@ -119,6 +123,9 @@ type PreludeSpec struct {
 	Workflow string     `json:"workflow"`
 	NumByte  int        `json:"num_byte,omitempty"`
 	Stream   StreamSpec `json:"stream"`
+	// Fault: the earlier call may itself have been cut short by a failing
+	// source (an aborted detection leaves whatever it had accumulated)
+	Fault FaultSpec `json:"fault,omitempty"`
 }
 
 // Required returns the number of stream bytes the workflow needs.
